@@ -217,7 +217,13 @@ def _typename(a):
 
 def _isinstance(E, a, cls):
     if cls.kind.tag == "tuple":
-        return any(_isinstance(E, a, c) for c in cls.t)
+        rs = [_isinstance(E, a, c) for c in cls.t]
+        if any(r is True for r in rs):
+            return True
+        sym = [r for r in rs if not isinstance(r, bool)]
+        if sym:
+            return z3.Or(sym)
+        return False
     if cls.kind.tag != "type":
         raise Unsupported("isinstance with %s" % (cls.kind,))
     c = cls.t
@@ -247,7 +253,15 @@ def _isinstance(E, a, cls):
             return False  # an arbitrary foreign object
         return E.P.is_subclass(a.kind[1], c) or E._shape_sub(a.kind[1], c)
     if t == "exc":
-        return E.exc_is(a.kind[1], c)
+        if E.exc_is(a.kind[1], c):
+            return True
+        if a.aux and a.aux.get("abstract") and E.exc_is(c, a.kind[1]):
+            # an abstract exception value: membership in a strict subclass is not determined
+            key = "isinst_%s" % c
+            if key not in a.aux:
+                a.aux[key] = z3.Bool(fresh_name(key))
+            return a.aux[key]
+        return False
     if t == "fn":
         return False
     raise Unsupported("isinstance of %s" % (a.kind,))
@@ -722,6 +736,9 @@ def call_ext(E, st, mod, name, args, kwargs, node=None):
         if name == "floor":
             return ok(st, V(INT, fl))
         return ok(st, V(INT, z3.If(z3.ToReal(fl) == a.t, fl, fl + 1)))
+    if full == "sys.exit":
+        s2, e = E.mk_exc(st, "SystemExit", args)
+        return [Out("raise", s2, e)]
     if full == "time.time":
         hook = getattr(E.R, "clock_hook", None)
         if hook is not None:
